@@ -27,12 +27,14 @@
     segment list `[]`, and `bsonkit.Put(doc, "\x00", v)` does panic on `v.(bson.D)` in the real code —
     that is the `.panic` branch of the model's `Put`, excluded by `p ≠ []` in `Put_never_panics`
     (`splitPath` of a NUL-free string is never `[]`: `Put_string_never_panics`).
-  * resources.  The model is total, not bounded: `put` on an array pads up to ANY index below MaxInt
-    (`put_index_guard`: new length = index+1) and `filterDocs` takes any limit.  The real code pads in an
-    unbounded `append` loop (`$set "a.1000000000000"` ends in `fatal error: out of memory`) and pre-allocates
-    `make(List, 0, limit)` (`Find` with limit ≥ 2^47 panics "makeslice: cap out of range", smaller huge
-    limits are a fatal out-of-memory error).  These are C20 FINDINGS on the code (see the final report of
-    this work and the `robust` stream), not covered by the no-panic theorems; `make` with a computed
+  * resources.  `put` on an array pads with at most `MaxArrayPadding` (1 500 000) nulls: a larger gap is a
+    plain error (`put_padding_rejected`), and on success the new length is `max len (index+1)` with
+    `index ≤ len + MaxArrayPadding` (`put_index_guard`).  Before /repo dd0d6c6 the code padded in an unbounded
+    `append` loop (`$set "a.1000000000000"` ended in `fatal error: out of memory`) — a C20 FINDING on the code,
+    fixed there; the model follows the fixed code.  `filterDocs` takes any limit; the code at the time of the
+    finding pre-allocated `make(List, 0, limit)` (`Find` with limit ≥ 2^47 panicked "makeslice: cap out of
+    range", smaller huge limits were a fatal out-of-memory error) — also a C20 FINDING (see the final report
+    of this work and the `robust` stream), not covered by the no-panic theorems; `make` with a computed
     capacity is not a kind of `Gen.PanicSites` yet.
   * `Coll.update`'s `sameId` is structural equality of `_id` values; the code compares `bson.Marshal`
     bytes, under which `bsonkit.Missing` (an empty struct) equals the empty document — FINDING: with
@@ -377,21 +379,39 @@ theorem push_window_in_range {α} (arr vals : List α) (p s : Int) :
   ⟨push_insertAt_le arr p, fun i => insertAtIdx_length arr vals i, (push_slice_window arr s).1,
    (push_slice_window arr s).2⟩
 
-/-- `put_index_guard`, rejection: a negative index and `math.MaxInt` (where `index+1` would wrap)
-    are plain errors. -/
-theorem put_index_rejected (xs : List V) (key : String) (rest : Path) (value : V) (pre : Bool) (index : Int)
-    (hk : atoi key = some index) (hne : ¬(key = "" ∧ rest = [])) (hbad : index < 0 ∨ index = (maxInt : Int)) :
+/-- `put_index_guard`, rejection: a key that `ParseIndex` does not accept (anything but plain
+    digits — "-1", "+1", "-0" included, the same keys `get` does not read as an index) and
+    `math.MaxInt` (where `index+1` would wrap) are plain errors. -/
+theorem put_index_rejected (xs : List V) (key : String) (rest : Path) (value : V) (pre : Bool)
+    (hne : ¬(key = "" ∧ rest = [])) (hbad : parseIndex key = none ∨ parseIndex key = some maxInt) :
     put (.arr xs) (key :: rest) value pre = .error .err :=
-  Lungo.put_index_rejected xs key rest value pre index hk hne hbad
+  Lungo.put_index_rejected xs key rest value pre hne hbad
 
-/-- `put_index_guard`, success: the key parsed as an index with `0 ≤ index` and `index+1 ≤ MaxInt`
-    (no wrap), and the new array has length `max len (index+1)` — the written element exists,
-    nothing outside the (padded) array is touched. -/
+/-- `put_index_guard`, padding limit: an index more than `MaxArrayPadding` (1 500 000) beyond the end
+    of the array is a plain error, for every value (for a present value this is the new guard in
+    front of the padding loop; an unset beyond the end was an error before). -/
+theorem put_padding_rejected (xs : List V) (key : String) (rest : Path) (value : V) (pre : Bool) (index : Nat)
+    (hk : parseIndex key = some index) (hpad : xs.length + maxArrayPadding < index) :
+    put (.arr xs) (key :: rest) value pre = .error .err :=
+  Lungo.put_padding_rejected xs key rest value pre index hk hpad
+
+/-- `put_index_guard`, success: the key parsed as an index (`ParseIndex`, so `0 ≤ index`) with
+    `index+1 ≤ MaxInt` (no wrap), at most `MaxArrayPadding` nulls are added
+    (`index ≤ len + MaxArrayPadding`), and the new array has length `max len (index+1)` — the written
+    element exists, nothing outside the (padded) array is touched. -/
 theorem put_index_guard (xs : List V) (key : String) (rest : Path) (value : V) (pre : Bool) (nv prev : V)
     (h : put (.arr xs) (key :: rest) value pre = .ok (nv, prev)) :
-    ∃ (index : Int) (ys : List V), atoi key = some index ∧ 0 ≤ index ∧ index + 1 ≤ (maxInt : Int) ∧
-      nv = .arr ys ∧ ys.length = max xs.length (index.toNat + 1) :=
+    ∃ (index : Nat) (ys : List V), parseIndex key = some index ∧ index + 1 ≤ maxInt ∧
+      index ≤ xs.length + maxArrayPadding ∧
+      nv = .arr ys ∧ ys.length = max xs.length (index + 1) :=
   Lungo.put_index_guard xs key rest value pre nv prev h
+
+/-- a consequence: a successful `put` grows an array by at most `MaxArrayPadding + 1` elements -/
+example (xs : List V) (key : String) (rest : Path) (value : V) (pre : Bool) (nv prev : V)
+    (h : put (.arr xs) (key :: rest) value pre = .ok (nv, prev)) :
+    ∃ ys, nv = .arr ys ∧ xs.length ≤ ys.length ∧ ys.length ≤ xs.length + maxArrayPadding + 1 := by
+  obtain ⟨i, ys, _, _, h3, h4, h5⟩ := put_index_guard xs key rest value pre nv prev h
+  exact ⟨ys, h4, by omega, by omega⟩
 
 /-- each recursive call of `resolve` is on a path with strictly fewer `$` characters … -/
 theorem resolve_recursion_decreases (path head op : String) (tail : Option String) (i : Nat)
@@ -429,6 +449,19 @@ def maxI64 : V := .i64 9223372036854775807
 -- TEST `$set` on `a.9223372036854775807`
 #guard isErr (Apply ctx0 docArr [("$set", .doc [("a.9223372036854775807", .i32 1)])] [])
 #guard isErr (Put docArr (splitPath "a.9223372036854775807") (.i32 1) false)
+-- TEST the hypotheses of `put_index_rejected` / `put_padding_rejected` / `put_index_guard` are met
+#guard parseIndex "-1" == none && parseIndex "+1" == none && parseIndex "-0" == none && parseIndex "x" == none
+#guard parseIndex "9223372036854775807" == some maxInt && parseIndex "9223372036854775808" == none
+#guard isErr (Put docArr (splitPath "a.-1") (.i32 1) false) && isErr (Put docArr (splitPath "a.+1") (.i32 1) false)
+#guard parseIndex "1500004" == some 1500004 && decide (3 + maxArrayPadding < 1500004)
+#guard isErr (Put docArr (splitPath "a.1500004") (.i32 1) false)       -- 1500001 nulls needed: rejected
+#guard isErr (Apply ctx0 docArr [("$set", .doc [("a.1000000000000", .i32 1)])] [])
+#guard (match Put docArr (splitPath "a.5") (.i32 9) false with
+        | .ok (d, _) => d == [("_id", .i32 1), ("a", .arr [.i32 1, .i32 2, .i32 3, .null, .null, .i32 9])]
+        | .error _ => false)
+#guard (match Put docArr (splitPath "a.01") (.i32 9) false with
+        | .ok (d, _) => d == [("_id", .i32 1), ("a", .arr [.i32 1, .i32 9, .i32 3])]
+        | .error _ => false)
 -- TEST negative skip
 #guard isErr (selectDocs schemaUnmodelled (newColl true) [] none (-1) 0)
 -- TEST replace / update of a document whose `_id` is a document or a binary
